@@ -234,6 +234,41 @@ class TaintEngine(object):
         self.n_functions += 1
         return s
 
+    def accum_params(self, fi, _depth=0):
+        """names of the parameters of fi that it accumulates into
+        (`p[...] += x`, directly or through a callee it hands p to)"""
+        key = id(fi)
+        cache = self.__dict__.setdefault('_accum_cache', dict())
+        if key in cache:
+            return cache[key]
+        cache[key] = set()
+        out = set()
+        params = set(fi.params)
+        stored = {n.id for n in ast.walk(fi.node)
+                  if isinstance(n, ast.Name) and isinstance(
+                      n.ctx, ast.Store)}
+        cand = params - stored
+        for n in ast.walk(fi.node):
+            if isinstance(n, ast.AugAssign) and isinstance(
+                    n.target, ast.Subscript):
+                b = n.target
+                while isinstance(b, (ast.Subscript, ast.Attribute)):
+                    b = b.value
+                if isinstance(b, ast.Name) and b.id in cand:
+                    out.add(b.id)
+            elif isinstance(n, ast.Call) and _depth < 4:
+                t = resolve_callee(self.db, fi, n)
+                if isinstance(t, FunctionInfo) and t is not fi:
+                    sub = self.accum_params(t, _depth + 1)
+                    if sub:
+                        mapping, _ = bind_args(t, n)
+                        for pn in sub:
+                            a = mapping.get(pn)
+                            if isinstance(a, ast.Name) and a.id in cand:
+                                out.add(a.id)
+        cache[key] = out
+        return out
+
     def analyse_all(self, in_scope=None):
         for fi in self.db.iter_functions(in_scope):
             s = self.summary(fi)
@@ -985,6 +1020,11 @@ class _FnState(object):
                             s.op, ast.Add) and self._order_sensitive_add(
                                 s, old, av):
                         ordl |= lo
+                    elif isinstance(s.op, (ast.Add, ast.Sub, ast.Mult)) \
+                            and not self._integer_literal(s.value):
+                        # numeric accumulation in labelled order (see
+                        # _store_into); counters `n += 1` are exact
+                        val |= lo
                     out[s.target.id] = AV(old.kind, ordl, val,
                                           old.kord | av.kord)
                 else:
@@ -992,11 +1032,16 @@ class _FnState(object):
                                      aug=True)
             elif isinstance(s, ast.Expr):
                 self._expr_stmt(s.value, out, env, s)
+            if isinstance(s, (ast.Expr, ast.Assign)):
+                self._accumulate_through_calls(s, out, env)
             elif isinstance(s, ast.Delete):
                 pass
         elif k == 'for':
             it = self.ev(s.iter, env)
-            tv = AV('unk', EMPTY, it.val)
+            # an element that is itself a sequence (a list of lists) has
+            # its order lumped into the outer one
+            tv = AV('unk', it.ord if it.kind == 'seq' and self._nested_seq(
+                s.iter) else EMPTY, it.val)
             self._bind_target(s.target, tv, out, s.iter)
             # a loop that can stop early (break / return) makes everything
             # it defines depend on the visiting order
@@ -1049,6 +1094,51 @@ class _FnState(object):
                 if isinstance(a, ast.Name) and a.id in names:
                     return True
         return False
+
+    def _accumulate_through_calls(self, s, out, env):
+        """a callee that accumulates into a container it was handed
+        (`buf[k] += x`) does so in the order of the loops around the call"""
+        lo = self.loop_ord(s, env)
+        if not lo:
+            return
+        for c in ast.walk(s.value):
+            if not isinstance(c, ast.Call):
+                continue
+            t = resolve_callee(self.db, self.fi, c)
+            if not isinstance(t, FunctionInfo):
+                continue
+            acc = self.eng.accum_params(t)
+            if not acc:
+                continue
+            mapping, _ = bind_args(t, c)
+            for pn in acc:
+                a = mapping.get(pn)
+                if isinstance(a, ast.Name) and a.id in out:
+                    o = out[a.id]
+                    out[a.id] = AV(o.kind, o.ord, o.val | lo, o.kord,
+                                   o.fields)
+
+    def _nested_seq(self, it_expr):
+        """the iterated name has `name[i].append(...)` somewhere in this
+        function: its elements are sequences"""
+        if not isinstance(it_expr, ast.Name):
+            return False
+        for n in ast.walk(self.fi.node):
+            if isinstance(n, ast.Call) and isinstance(
+                    n.func, ast.Attribute) and n.func.attr in (
+                        'append', 'extend') and isinstance(
+                            n.func.value, ast.Subscript):
+                b = n.func.value
+                while isinstance(b, ast.Subscript):
+                    b = b.value
+                if isinstance(b, ast.Name) and b.id == it_expr.id:
+                    return True
+        return False
+
+    @staticmethod
+    def _integer_literal(v):
+        return isinstance(v, ast.Constant) and isinstance(
+            v.value, int) and not isinstance(v.value, bool)
 
     def _order_sensitive_add(self, s, old, av):
         # list += list / str += str are order sensitive; numeric sums are
@@ -1137,8 +1227,17 @@ class _FnState(object):
                 # loop: treat as dict (insertion order)
                 if self._looks_like_dict(base.id):
                     newk = old.kord | self.loop_ord(stmt, env, base.id)
+            accum = EMPTY
+            if aug:
+                # `a[i] += x` in a loop whose visiting order is labelled:
+                # floating-point accumulation is not associative, so the
+                # sum carries the order labels as value labels (integer
+                # counters are exact, but their type is not known here;
+                # the property asks for identical results)
+                accum = self.loop_ord(stmt, env, base.id)
             out[base.id] = AV(kind, newo | av.ord,
-                              old.val | av.val | idx_val, newk | av.kord)
+                              old.val | av.val | idx_val | accum,
+                              newk | av.kord)
             # a dataset handle: persistent write
             if self._is_dataset(base.id, env):
                 self._sink(av.ord | av.val | idx_val, stmt, 'HDF5 dataset')
@@ -1189,6 +1288,24 @@ class _FnState(object):
         if not isinstance(v, ast.Call):
             return
         f = v.func
+        if isinstance(f, ast.Attribute) and isinstance(
+                f.value, ast.Subscript) and f.attr in ('append', 'extend',
+                                                       'insert'):
+            # work[i].append(x): nesting is lumped into the outer container
+            b = f.value
+            while isinstance(b, ast.Subscript):
+                b = b.value
+            if isinstance(b, ast.Name):
+                name = b.id
+                old = env.get(name, CLEAN)
+                lo = self.loop_ord(stmt, env, name)
+                allv = CLEAN
+                for a in v.args:
+                    allv = allv.join(self.ev(a, env))
+                out[name] = AV('seq' if old.kind == 'unk' else old.kind,
+                               old.ord | lo | allv.ord, old.val | allv.val,
+                               old.kord | allv.kord)
+                return
         if isinstance(f, ast.Attribute) and isinstance(f.value, ast.Name):
             name = f.value.id
             old = env.get(name, CLEAN)
